@@ -18,14 +18,16 @@ RULE = (
     "fault-free pilot run catalogues every model-function call made inside transitions; then one faulted run per "
     "(call index, applicable fault kind): value faults NaN/+inf/-inf/NaN-entry/inf-entry anywhere in a trajectory, "
     "ValueError / numpy LinAlgError / mici LinAlgError for calls made inside an iterative solve, forced non-convergence of "
-    "the j-th solve; plus seeded multi-fault sequences and deterministic region faults (with bounded-liveness check after "
-    "the faults stop). Oracle: sample() returns, state finite and unchanged-or-candidate, flags match the errors seen, "
+    "the j-th solve; plus seeded multi-fault sequences and deterministic region faults. After exception and forced-"
+    "non-convergence faults stop, 8 clean iterations are run twice - from the chain's own state object and from a fresh state "
+    "holding the same variables with the same generator state - and must agree exactly (no poisoned state survives). Oracle: sample() returns, state finite and unchanged-or-candidate, flags match the errors seen, "
     "solvers never return unconverged / leak foreign exceptions. distinct_nontrivial = distinct (scenario, function, "
     "fault kind, in-solve flag, outcome class) tuples among runs whose fault fired."
 )
 ASSUMPTIONS = [
     "exceptions are injected only while an iterative solver is on the stack (the property's containment promise); value faults anywhere inside transition.sample",
-    "after a transient value fault only return/finiteness/candidate/flag oracles are asserted (a cached transient NaN may pin the chain); liveness is asserted for exception, forced-non-convergence and region faults",
+    "after a transient value fault only return/finiteness/candidate/flag oracles are asserted (a cached transient NaN may legitimately pin the chain); the clean-continuation comparison is asserted after exception and forced-non-convergence faults",
+    "no bound on the number of flagged (rejected) transitions after faults stop is asserted: the property promises that the chain continues, not that it moves",
     "harness oracle evaluations run with the injector paused on fresh states",
 ]
 REAL_VS_STUB = "real: mici transitions, integrators, solvers, systems, matrices; stub: user model functions misbehave on command (Hooked wrappers)"
@@ -100,9 +102,9 @@ def judge_run(ctx, outcome, scn, fault_desc, liveness):
         y["msg"] = f"fault {fault_desc}: {x['msg']}"
         y["detail"] = {"fault": fault_desc}
         v.append(y)
-    if liveness and not outcome["escaped"] and outcome["clean_success_after_faults"] is False:
-        v.append(violation("no-progress", f"{PROP} no-progress-after-faults",
-                           f"fault {fault_desc}: no successful flag-free transition within the fault-free iterations that followed", fault=fault_desc))
+    if liveness and not outcome["escaped"] and outcome.get("poisoned"):
+        v.append(violation("poisoned-state", f"{PROP} poisoned-state-after-faults",
+                           f"fault {fault_desc}: {outcome['poisoned']}", fault=fault_desc))
     return v
 
 
@@ -120,8 +122,7 @@ def run_scenario(scn):
         # a fault-free run must satisfy everything as well
         viols.extend(judge_run(ctx0, out0, scn, "none (fault-free pilot)", False))
         return {"violations": viols, "stats": stats, "keys": keys, "sample": sample, "evaluations": 1}
-    # liveness is only asserted for scenarios that are healthy by themselves: the fault-free
-    # chain extended by the same number of iterations has no flagged transition at all
+    # (statistic only) is the fault-free chain, extended by the clean iterations, completely flag-free?
     ctx_l, out_l = fs.run_chain(scn, extra_clean_iters=8)
     healthy = not out_l["escaped"] and not out_l["flags"] and out_l["iters"] == scn["n_iter"] + 8
     stats["healthy_scenarios"] = int(healthy)
@@ -167,7 +168,7 @@ def run_scenario(scn):
     for item in plan:
         faults = item.get("faults", [])
         ctx, out = fs.run_chain(scn, faults=faults, region=item.get("region"), solver_fail_at=item.get("solver_fail_at"),
-                                extra_clean_iters=8 if (item.get("live") and healthy) else 0)
+                                extra_clean_iters=8 if item.get("live") else 0)
         stats["faulted_runs"] += 1
         stats["solves"] += ctx.solves
         stats["steps"] += ctx.counters.get("steps", 0)
@@ -185,7 +186,10 @@ def run_scenario(scn):
             f0 = ctx.fired[0]
             keys.append(digest([cfg, f0[1], f0[2], f0[3], cls]))
         desc = {k: v for k, v in item.items() if k != "live"}
-        live = bool(item.get("live")) and bool(ctx.fired) and healthy
+        live = bool(item.get("live")) and bool(ctx.fired)
+        stats["clean_continuations_compared"] = stats.get("clean_continuations_compared", 0) + ctx.counters.get("clean_continuations_compared", 0)
+        if live and out.get("clean_success_after_faults") is False:
+            stats["no_flag_free_transition_after_faults"] = stats.get("no_flag_free_transition_after_faults", 0) + 1
         vs = judge_run(ctx, out, scn, desc, live)
         if vs:
             for x in vs:
